@@ -330,7 +330,7 @@ func (r *relayDouble) handle(rw http.ResponseWriter, req *http.Request) {
 		_, _ = rw.Write([]byte(`{"code":400,"message":"scripted rejection"}`))
 	case "drop":
 		// hang for a while (well inside the client's timeout), then drop the connection
-		time.Sleep(60 * time.Millisecond)
+		_ = pause(req.Context(), 60*time.Millisecond)
 		if hj, ok := rw.(http.Hijacker); ok {
 			if conn, _, err := hj.Hijack(); err == nil {
 				_ = conn.Close()
@@ -339,7 +339,7 @@ func (r *relayDouble) handle(rw http.ResponseWriter, req *http.Request) {
 		}
 		rw.WriteHeader(http.StatusBadGateway)
 	case "slow":
-		time.Sleep(60 * time.Millisecond)
+		_ = pause(req.Context(), 60*time.Millisecond)
 		fallthrough
 	default:
 		rw.Header().Set("Content-Type", "application/json")
@@ -402,10 +402,26 @@ func (n *nodeBase) setMode(m string) {
 	n.mu.Unlock()
 }
 
+// pause is a scripted delay that ends early, with the context's error, when the
+// caller's context ends - as the real HTTP clients behave.
+func pause(ctx context.Context, d time.Duration) error {
+	t := time.NewTimer(d)
+	defer t.Stop()
+	select {
+	case <-t.C:
+		return nil
+	case <-ctx.Done():
+		return ctx.Err()
+	}
+}
+
 type secCall struct {
 	Step int
 	Regs []obsReg
 	Bad  string // non-empty: something a well-formed call cannot contain
+	// Refused: the call arrived on a context that had already ended; like a real
+	// client the double refuses it and the node receives nothing.
+	Refused string
 }
 
 // secNode is a secondary beacon node accepting validator registrations.
@@ -414,8 +430,15 @@ type secNode struct {
 	calls []secCall
 }
 
-func (n *secNode) SubmitValidatorRegistrations(_ context.Context, regs []*api.VersionedSignedValidatorRegistration) error {
+func (n *secNode) SubmitValidatorRegistrations(ctx context.Context, regs []*api.VersionedSignedValidatorRegistration) error {
 	call := secCall{Step: n.w.curStep()}
+	if err := ctx.Err(); err != nil {
+		call.Refused = err.Error()
+		n.mu.Lock()
+		n.calls = append(n.calls, call)
+		n.mu.Unlock()
+		return err
+	}
 	for _, r := range regs {
 		if r == nil || r.V1 == nil || r.V1.Message == nil {
 			call.Bad = "nil registration"
@@ -437,10 +460,13 @@ func (n *secNode) SubmitValidatorRegistrations(_ context.Context, regs []*api.Ve
 	case "error":
 		return errors.New("scripted beacon node failure")
 	case "slow":
-		time.Sleep(40 * time.Millisecond)
+		return pause(ctx, 40*time.Millisecond)
 	}
 	return nil
 }
+
+// slowPrepNode is how long a slow-but-working beacon node takes.
+const slowPrepNode = 150 * time.Millisecond
 
 type obsPrep struct {
 	Index uint64
@@ -448,9 +474,10 @@ type obsPrep struct {
 }
 
 type prepCall struct {
-	Step  int
-	Preps []obsPrep
-	Bad   string
+	Step    int
+	Preps   []obsPrep
+	Bad     string
+	Refused string // see secCall
 }
 
 // prepNode is a beacon node accepting proposal preparations.
@@ -459,8 +486,15 @@ type prepNode struct {
 	calls []prepCall
 }
 
-func (n *prepNode) SubmitProposalPreparations(_ context.Context, preps []*apiv1.ProposalPreparation) error {
+func (n *prepNode) SubmitProposalPreparations(ctx context.Context, preps []*apiv1.ProposalPreparation) error {
 	call := prepCall{Step: n.w.curStep()}
+	if err := ctx.Err(); err != nil {
+		call.Refused = err.Error()
+		n.mu.Lock()
+		n.calls = append(n.calls, call)
+		n.mu.Unlock()
+		return err
+	}
 	for _, p := range preps {
 		if p == nil {
 			call.Bad = "nil preparation"
@@ -477,6 +511,9 @@ func (n *prepNode) SubmitProposalPreparations(_ context.Context, preps []*apiv1.
 		return errors.New("scripted beacon node failure")
 	case "notactive":
 		return fmt.Errorf("node is syncing: %w", eth2client.ErrNotActive)
+	case "slow":
+		// slow but working: the preparations are accepted after a while
+		return pause(ctx, slowPrepNode)
 	}
 	return nil
 }
